@@ -265,6 +265,7 @@ struct Obs {
   bool retried = false;
   int r2 = 0;
   bool hello2 = false;
+  int retry_poll = -1000, retry_events = 0;   // poll(EXIT, 0) on the restarted handle while its child idles
   // history after a successful start
   std::vector<std::string> history;   // "op=result"
   int sig_count_after_reap = 0;
@@ -520,6 +521,9 @@ inline Obs run(const RunConfig &cfg, const std::string &root)
   b.opt.env.extra = use_extra ? extrav.data() : nullptr;
   b.opt.working_directory = wd.empty() ? nullptr : wd.c_str();
   b.opt.stop = { { REPROC_STOP_WAIT, 2000 }, { REPROC_STOP_KILL, 2000 }, { REPROC_STOP_NOOP, 0 } };
+  // the first attempt carries a (short) deadline, a restart after a failure
+  // carries none: nothing of the failed attempt may survive on the handle
+  b.opt.deadline = 5;
 
   if (natural_failure(cfg.scenario)) {
     if (cfg.scenario == S_BAD_REDIRECT_PATH) {
@@ -774,6 +778,7 @@ inline Obs run(const RunConfig &cfg, const std::string &root)
     // ---- all-or-nothing: the handle must be startable again
     o.retried = true;
     hz::Puppet *pp = &pup;
+    b.opt.deadline = 0;
     int r2 = reproc_start(p, argv, b.opt);
     if (fork_mode && r2 == 0) {
       detail::fork_child_report(fork_report);
@@ -789,7 +794,14 @@ inline Obs run(const RunConfig &cfg, const std::string &root)
         }
       } else {
         o.hello2 = pp->wait_ready(10000, reproc_pid(p));
-        if (o.hello2) pp->send(PUP_EXIT, 0);
+        if (o.hello2) {
+          // the restarted handle must carry nothing over from the failed attempt
+          usleep(12000);  // a deadline left over from the first attempt has expired by now
+          reproc_event_source src = { p, REPROC_EVENT_EXIT, 0 };
+          o.retry_poll = reproc_poll(&src, 1, 0);
+          o.retry_events = src.events;
+          pp->send(PUP_EXIT, 0);
+        }
       }
       int w = reproc_wait(p, 3000);
       if (w == REPROC_ETIMEDOUT) {
